@@ -1,7 +1,9 @@
 """C01 — wrapped C/C++ compiles are observably identical to direct compiles (PARTIAL: the compilers are not modelled).
 
 Ties: T   translator/c01_argtables.py regenerates Gen/C01ArgTables.v (both ARGS tables, the ArgData -> list maps of
-          gcc::parse_arguments, the language tables); side conditions proved by vm_compute in Proofs/Args.v
+          gcc::parse_arguments, the language tables, and the structure of c.rs generate_hash_key: what goes into the
+          argument vectors of the two keys, the environment they receive, the order "reference time before the
+          preprocessor run"); side conditions proved by vm_compute in Proofs/ArgTables.v
       D   legs `parse` and `search`: Model/Args.v (extracted) vs the real ArgsIter / parse_arguments /
           generate_compile_commands / preprocess_cmd on generated argument vectors
       e2e `extra`: the real sccache binary vs the real gcc 12 / clang 14 on generated translation units and histories
@@ -28,6 +30,7 @@ RUN_MODULE = 'Run.C01'
 REPO_BINS = ['sccache']
 THEOREMS = ['C01_table_wf', 'C01_no_argument_lost', 'C01_command_complete', 'C01_parse_total', 'C01_every_argument_placed', 'C01_listed_words_multiset',
             'C01_dep_targets_kept', 'C01_every_result_affecting_arg_is_hashed', 'C01_class_side_conditions',
+            'C01_hash_key_side_conditions', 'C01_hashed_args_reach_hash_key',
             'C01_dep_target_without_md_dropped', 'C01_x_rs_dropped', 'C01_resynthesis_fixpoint_refuted',
             'C01_resynthesis_fixpoint_partial', 'C01_hit_replays_stored', 'C01_failure_verbatim_never_stored',
             'C01_noncacheable_passthrough']
@@ -48,6 +51,9 @@ TRUSTED = [
     'matches of gcc::parse_arguments, the -x / extension / language_to_*_arg tables (every row is also exercised by the '
     'differential legs; unknown syntax raises)',
     'hook gcc::verif_preprocess_args (records the argument vector of the private preprocess_cmd with a MockCommand)',
+    'translator: c.rs generate_hash_key is transcribed structurally (statement shapes of the two argument vectors, the '
+    'environment handed to the key functions, both CACHED_ENV_VARS lists, the position of start_of_compilation); any other '
+    'statement shape raises',
     'e2e/c01_e2e.py: drives the real sccache binary and the real gcc 12 / clang 14 (snapshot / restore of the tree, '
     'byte-for-byte comparison, /proc scan for servers); Model/ReqSM.v + Proofs/ReqSM.v (C09/C14) for the request-level theorems',
 ]
@@ -202,6 +208,8 @@ def gen_files(rng, spec, kind):
             toks.insert(rng.below(len(toks) + 1), b'@' + [b'rsp2', b'rsp3'][i])   # only forward references: no cycles
         if rng.chance(1, 10):
             toks.append(rng.choice([b'"q"', b"'q'"]))
+        if rng.chance(1, 12):
+            toks.append(rng.choice([b'-DX=a\\b', b'-Iinc\\', b'\\']))      # backslash: an escape character for gcc / clang
         content = b''
         for t in toks:
             content += rng.choice(WS) + t
@@ -282,8 +290,9 @@ def gen_search(rng, n):
 
 # ------------------------------------------------------------------ monitors (on the REAL output)
 
-def expand(words, files, depth=0):
-    """@file expansion as documented by gcc (and re-implemented by ExpandIncludeFile), written independently here."""
+def expand(words, files, backslash_literal=False):
+    """@file expansion as documented by gcc (and re-implemented by ExpandIncludeFile), written independently here.
+    A file with quotes is left alone; one with a backslash (an escape character for gcc) either way, see the callers."""
     out = []
     fm = {f[0]: f[1] for f in files}
     stack = list(reversed(words))
@@ -293,7 +302,8 @@ def expand(words, files, depth=0):
         if steps > 10000:
             return None
         w = stack.pop()
-        if w.startswith(b'@') and w[1:] in fm and b'"' not in fm[w[1:]] and b"'" not in fm[w[1:]]:
+        if (w.startswith(b'@') and w[1:] in fm and b'"' not in fm[w[1:]] and b"'" not in fm[w[1:]]
+                and not (backslash_literal and b'\\' in fm[w[1:]])):
             stack.extend(reversed(fm[w[1:]].split()))
         else:
             out.append(w)
@@ -358,12 +368,20 @@ def monitor_parse(case, out):
     if not isinstance(out, list) or len(out) != 5:
         return ['malformed implementation output']
     toks, tend, xtoks, xtend, res = out
-    exp = expand(words, files)
-    if exp is not None:
-        vs += check_tokens_cover(toks, tend, exp, 'tokenizer')
-        xv = expand([t[3] for t in toks if t[0] == b'with' and t[2] == CI['XClang']], files)
+    # a response file with backslash escapes may be expanded (words split at white space) or passed on literally
+    best = None
+    for bl in (False, True):
+        exp = expand(words, files, bl)
+        if exp is None:
+            best = []
+            break
+        cur = check_tokens_cover(toks, tend, exp, 'tokenizer')
+        xv = expand([t[3] for t in toks if t[0] == b'with' and t[2] == CI['XClang']], files, bl)
         if xv is not None:
-            vs += check_tokens_cover(xtoks, xtend, xv, '-Xclang tokenizer')
+            cur += check_tokens_cover(xtoks, xtend, xv, '-Xclang tokenizer')
+        if best is None or len(cur) < len(best):
+            best = cur
+    vs += best
     if not res or res[0] == b'panic':
         vs.append('parse_arguments panicked')
         return vs
@@ -651,9 +669,21 @@ def replay_e2e(path, data):
     if not (ok and ok2 and ok3 and ok4):
         print('build failed'); print((out + out2 + out3 + str(out4))[-3000:])
         return 1
-    hid, seed = int(info['history']), int(data.get('seed', 1))
     v = c01_e2e.Verdict()
     known_ids = {k['id'] for k in _known_with_local(ID)}
+    if 'scenario' in info:
+        kw = {k: info[k] for k in ('real_compiler', 'compiler', 'cxx') if k in info}
+        if info['scenario'] == 'header_saved_during_compile':
+            kw = {'real_compiler': info.get('compiler', 'gcc'), 'cxx': bool(info.get('cxx'))}
+        c01_e2e.SCENARIOS[info['scenario']](int(info.get('sid', 0)), pipeline.repo_bin('sccache'), 28500, v, known_ids, **kw)
+        print('scenario %s: %d requests, %d violations' % (info['scenario'], v.requests, len(v.violations)))
+        for kind, detail, r in v.violations:
+            print('%s: %s' % (kind, detail[:3000]))
+        if v.violations:
+            print('VIOLATION property=%s replay=%s' % (ID, path))
+            return 1
+        return 0
+    hid, seed = int(info['history']), int(data.get('seed', 1))
     rng = Rng(int.from_bytes(hashlib.sha256(b'C01:e2e:%d:%d' % (seed, hid)).digest()[:7], 'big'))
     c01_e2e.run_history(hid, rng, pipeline.repo_bin('sccache'), _model_predict_fn(), 29000 + hid % 2000, v,
                         int(info.get('n_ops', 9)), known_ids)
@@ -732,8 +762,20 @@ def extra(rep, known):
             v.violations.append(('driver', traceback.format_exc()[-1500:], {'history': hid}))
         return v
 
+    def scen(item):
+        i, (name, kw) = item
+        v = c01_e2e.Verdict()
+        try:
+            c01_e2e.SCENARIOS[name](i, sccache, 45000 + (os.getpid() % 300) * 40 + i, v, known_ids, **kw)
+        except Exception:
+            import traceback
+            v.violations.append(('driver', traceback.format_exc()[-1500:], {'scenario': name}))
+        return v
+
     with ThreadPoolExecutor(max_workers=8) as ex:
+        fut_s = [ex.submit(scen, it) for it in enumerate(c01_e2e.scenario_plan(rep.tier))]
         verdicts = list(ex.map(one, range(n_hist)))
+        verdicts += [f.result() for f in fut_s]
     total = sum(v.requests for v in verdicts)
     nv = 0
     for v in verdicts:
@@ -762,8 +804,14 @@ def extra(rep, known):
     rep.evaluations += total
     rep.traces += total
     rep.legs['e2e'] = dict(histories=n_hist, requests=total, violations=nv, wall_s=round(time.time() - t0, 1))
-    rep.rule.append('e2e: %d histories x <=%d steps (edits same-size / different-size / revert, define, include path, -x language, '
-                    'output path, hashed env, CPATH, restart, 4 concurrent clients, error / warning variants, pass-through forms); '
+    rep.rule.append('e2e: %d histories x <=%d steps; every history: first / repeat, three diagnostics-rendering styles on a unit that '
+                    'compiles WITH warnings and the first one again (colour on/off/auto, -w, -Werror, -fmessage-length, show-option, '
+                    'caret / column / location switches), the include path given through CPATH / C_INCLUDE_PATH / CPLUS_INCLUDE_PATH '
+                    'pointing at two directories with a same-named header of different contents (A, B, A); then random steps (edits '
+                    'same-size / different-size / whitespace-only / revert, define, include path, -x language, '
+                    'output path, hashed env, include-path env, restart, 4 concurrent clients, error / warning variants, pass-through forms '
+                    'incl. response files with backslash escapes); fixed scenarios: a header saved right after the preprocessor of an in-flight '
+                    'request read it (compiler shim), one absolute source from two build directories with -I. , a device node as output; '
                     'each request also run directly in the same directory, tree restored in between; everything compared byte for byte'
                     % (n_hist, n_ops))
     rep.oblige('e2e:transparency', nv == 0, '%d requests in %d histories, %d violations' % (total, n_hist, nv))
